@@ -172,6 +172,17 @@ def same(v, node):
         a = sorted(canon(parse(enc(x))) for x in v)
         b = sorted(canon(x) for x in node[1])
         return None if a == b else f'set {a} vs {b}'
+    if type(v).__name__ == 'Hands' and k == 'o':
+        # a Hands instance as an instance (result of convert_binary …): its four sets
+        if node[1] != 'Hands':
+            return f'class Hands vs {node[1]}'
+        for f in ('north', 'east', 'south', 'west'):
+            if f not in node[2]:
+                return f'attribute {f} missing'
+            r = same(getattr(v, f), node[2][f])
+            if r:
+                return f'.{f}: {r}'
+        return None
     if isinstance(v, dict) or type(v).__name__ == 'Hands':
         if k != 'd':
             return f'dict vs {k}'
